@@ -139,6 +139,8 @@ def calculate_r (v w : Vec α 3) : Mat α 3 3 :=
   let WW := memoM (mmul W W)
   let WWV := memoM (mmul W WV)
   let VWW := memoM (mmul V WW)
+  -- `Scalar(2) * W * WV` is `(2·W)·WV` in the source (tied by SrcTieImpl.galilei_calculate_r)
+  let W2WV := memoM (mmul (msmul (nat 2) W) WV)
   let s3 := Trig.sin_3 th2
   let c4 := Trig.cos_4 th2
   let s5 := Trig.sin_5 th2
@@ -148,7 +150,7 @@ def calculate_r (v w : Vec α 3) : Mat α 3 3 :=
     (((V i j / nat 6
       + s3 * (-(WV i j) + (h * vdw) * W i j))
       + c4 * ((((VW i j + WWV i j) - nat 2 * WV i j) - (h * vdw) * WW i j) + (nat 2 * vdw) * W i j))
-      + s5 * ((VWW i j - nat 2 * WWV i j) + (nat 2 * vdw) * (WW i j - W i j)))
+      + s5 * ((VWW i j - W2WV i j) + (nat 2 * vdw) * (WW i j - W i j)))
       + c6 * ((nat 2 * vdw) * WW i j)))
 
 def dr_exp (a : Vec α 10) : Mat α 10 10 :=
